@@ -33,8 +33,8 @@ N_INST_THOROUGH = 40
 
 
 def opts() -> mmgen.Opts:
-    return mmgen.Opts(max_classes=5, max_props=3, max_cps=3, invariants="schema", docs="none", p_diamond=0.4,
-                      class_weight=2, float_props=False, compatible_patterns=0.4)
+    return mmgen.Opts(max_classes=5, max_props=3, max_cps=4, invariants="schema", docs="none", p_diamond=0.4,
+                      class_weight=2, cp_weight=5, float_props=False, compatible_patterns=0.4, forward_bases=0.5, cp_chain=0.5)
 
 
 @st.composite
@@ -82,7 +82,7 @@ def prepare(case: Dict[str, Any], base: Any, ctx: Any, fails: List[Tuple[str, st
     finally:
         shutil.rmtree(d, ignore_errors=True)
     try:
-        p.rm = refmodel.load(p.text)
+        p.rm = refmodel.load(mmgen.render(p.spec, canonical=True))  # bases first: the text is executed
     except BaseException:  # noqa
         if ctx is not None:
             ctx.exclude("reference-exec-failed")
